@@ -9,10 +9,11 @@ import Deepali.Drv.BSpline
 import Deepali.Drv.FD
 import Deepali.Drv.Losses
 import Deepali.Drv.Dispatch
+import Deepali.Drv.ImageOps
 namespace Deepali.Drv
 open Deepali.Proto
 
 def allHandlers : List (String × Reader String) :=
-  gridHandlers ++ sampleHandlers ++ flowHandlers ++ affineHandlers ++ bsplineHandlers ++ fdHandlers ++ lossHandlers ++ dispatchHandlers
+  gridHandlers ++ sampleHandlers ++ flowHandlers ++ affineHandlers ++ bsplineHandlers ++ fdHandlers ++ lossHandlers ++ dispatchHandlers ++ imageOpsHandlers
 
 end Deepali.Drv
